@@ -285,7 +285,7 @@ pub fn for_type_binop(lhs: &Expr, op: &Op, rhs: &Expr, flags: &Flags) -> (r: Res
 }} // verus!
 fn main() {{}}
 """
-    return gen, [Obl("C10.op.is_op_assign", ["C10", "C03"], fn="Op::is_op_assign", desc="Op::is_op_assign: true exactly for += -= *= /= %= (the operators whose const test Expr::for_type runs)"),
+    return gen, [Obl("C10.op.is_op_assign", ["C10", "C03", "C02"], fn="Op::is_op_assign", desc="Op::is_op_assign: true exactly for += -= *= /= %= (the operators whose const test Expr::for_type runs)"),
                  Obl("C10.root_ident", ["C10"], fn="Expr::root_ident", desc="Expr::root_ident: the variable at the root of an index / field chain"),
                  Obl("C10.for_type.binop", ["C10", "C03", "C16", "C02", "C11"], fn="for_type_binop",
                      desc="Expr::for_type (BinOp): `+= -= *= /= %=` and `?=` on a const name are rejected; an accepted operation has an entry in the operator table")], log
